@@ -9,7 +9,8 @@
     * argparse's conversion of *string* defaults by `type=` at the end of the parse,
     * `FieldWrapper.postprocess` applied to every value (parsing.py:972-982),
     * `_instantiate_dataclasses` / `_create_dataclass_instance` (parsing.py:794-909,1135-1161): bottom-up
-      construction and the `Optional[dataclass]` rule ("all fields at their default and no default
+      construction and the `Optional[dataclass]` rule ("all fields at their default — those of the nested
+      members included, `_is_at_default` (parsing.py:1168-1180, since fixes 3f531df / f635f07) — and no default
       instance ⇒ None").
   Option spelling plays no role for an empty argv, so the parser configuration does not appear here;
   that the real parser agrees under every configuration is what the correspondence check observes.
@@ -142,6 +143,57 @@ def IFields.allLeavesEq (got : IFields) (dflt : List (Str × Val)) : Bool :=
   | .leaf n v rest => (dflt.lookup n == some v) && rest.allLeavesEq dflt
   | .sub _ _ rest => rest.allLeavesEq dflt
 
+/-- `DataclassWrapper.defaults` of a member, from those of the enclosing wrapper (dataclass_wrapper.py:256-274):
+    the attribute of the enclosing default instance, else the field's own default / `default_factory()` -/
+def childDV (dv : DV) (name : Str) (dflt : ChildDflt) (t : CTree) : DV :=
+  match dv with
+  | .present i => (match i.getSub name with
+    | some .nul => .presentNone
+    | some v => .present v
+    | none => .presentNone)
+  | .presentNone => .presentNone
+  | .absent => (match dflt with
+    | .missing => .absent
+    | .noneVal => .presentNone
+    | .factoryCls => (match construct t with
+      | .ok v => .present v
+      | _ => .absent)
+    | .factoryInst i => .present i)
+
+/-- `field_wrapper.default` of a leaf of a wrapper whose `defaults` are `dv`: the attribute of the default instance,
+    else the field's own default -/
+def leafWD (f : FieldSpec) (dv : DV) : Val :=
+  match dv with
+  | .present i => (match i.getLeaf f.name with
+    | some v => v
+    | none => .sc .none)
+  | _ => defaultVal f.default
+
+/-! `_is_at_default(wrapper, value)` (parsing.py:1168-1180): a member that is None is at its default; a built one is
+    when every leaf equals its field wrapper's default and every nested member is, recursively.  The instance was
+    built from these very fields, in this order, and dataclass field names are distinct, so `getattr(value, name)`
+    is the entry at the same position. -/
+mutual
+def atDefaultT : CTree → DV → IVal → Bool
+  | _, _, .nul => true
+  | .mk _ fs, dv, .inst _ ifs => atDefaultF fs dv ifs
+def atDefaultF : CFields → DV → IFields → Bool
+  | .nil, _, .nil => true
+  | .leaf f rest, dv, .leaf _ v irest => (v == leafWD f dv) && atDefaultF rest dv irest
+  | .child name _ dflt t rest, dv, .sub _ v irest =>
+    atDefaultT t (childDV dv name dflt t) v && atDefaultF rest dv irest
+  | _, _, _ => false
+end
+
+/-- the members' half of the Optional rule (parsing.py:1213-1217): every nested member of the wrapper is at its
+    default (the wrapper's own leaves are compared by `allLeavesEq`) -/
+def membersAtDefault : CFields → DV → IFields → Bool
+  | .nil, _, .nil => true
+  | .leaf _ rest, dv, .leaf _ _ irest => membersAtDefault rest dv irest
+  | .child name _ dflt t rest, dv, .sub _ v irest =>
+    atDefaultT t (childDV dv name dflt t) v && membersAtDefault rest dv irest
+  | _, _, _ => false
+
 mutual
 /-- `pc` = the default handed down the *constructor-parameter* chain (caller instance → attribute
     → …; `none` = None), `dv` = `wrapper.defaults`, `opt` = inside an Optional member -/
@@ -182,19 +234,7 @@ def parseEmptyFields (fenv : FEnv) : CFields → Option IVal → DV → Bool →
         | none => none)
       | none => none
     -- `DataclassWrapper.defaults` of the child
-    let dvChild : DV := match dv with
-      | .present i => (match i.getSub name with
-        | some .nul => .presentNone
-        | some v => .present v
-        | none => .presentNone)
-      | .presentNone => .presentNone
-      | .absent => (match dflt with
-        | .missing => .absent
-        | .noneVal => .presentNone
-        | .factoryCls => (match construct t with
-          | .ok v => .present v
-          | _ => .absent)
-        | .factoryInst i => .present i)
+    let dvChild : DV := childDV dv name dflt t
     let optHere := opt || optional
     -- a required (default-less) non-optional member whose fields have no defaults fails inside
     match parseEmptyChild fenv t pcChild dvChild optHere optional with
@@ -212,7 +252,8 @@ def parseEmptyChild (fenv : FEnv) : CTree → Option IVal → DV → Bool → Bo
       -- `default_is_none`: no default from a caller instance AND none from the field / enclosing defaults
       -- (the second conjunct exists since the repair of the Optional-with-default_factory defect)
       let defaultIsNone := pcChild.isNone && (match dvChild with | .present _ => false | _ => true)
-      if optional && defaultIsNone && r.allLeavesEq ds then .ok .nul
+      -- own leaves at their default, and (since 3f531df / f635f07) every nested member at its default
+      if optional && defaultIsNone && r.allLeavesEq ds && membersAtDefault fs dvChild r then .ok .nul
       else .ok (.inst cls r)
     | .exit2 => .exit2
     | .raise e => .raise e
